@@ -161,6 +161,14 @@ func corruptFasta(r *RNG, txt, kind, where string) string {
 	case "bad-symbol":
 		p := r.Intn(len(lines[at]))
 		lines[at] = lines[at][:p] + badSymbol(r) + lines[at][p+1:]
+	case "record-without-sequence":
+		// a header that is followed directly by the next header (or by the end of the file): a record of width 0 in front
+		// of the record at `where`, or after the last one
+		if where == "last" {
+			lines = append(lines, ">no_sequence")
+		} else if at > 0 {
+			lines = append(lines[:at-1:at-1], append([]string{">no_sequence"}, lines[at-1:]...)...)
+		}
 	case "header-without-id":
 		// the header line of that record carries no ID: a bare '>' or '>' followed by white space only
 		if at > 0 && strings.HasPrefix(lines[at-1], ">") {
@@ -222,7 +230,7 @@ func c18Gen(r *RNG, id string) *Case {
 }
 
 func c18Kinds(cmd string) []string {
-	kinds := []string{"short-row", "long-row", "bad-symbol", "header-without-id", "missing-file", "empty-file", "width-mismatch", "two-record-reference", "late-short-row", "late-bad-symbol"}
+	kinds := []string{"short-row", "long-row", "bad-symbol", "header-without-id", "record-without-sequence", "missing-file", "empty-file", "width-mismatch", "two-record-reference", "late-short-row", "late-bad-symbol"}
 	switch cmd {
 	case "toma", "topa", "samvariants":
 		kinds = []string{"empty-sam", "missing-file", "empty-file"}
@@ -230,17 +238,17 @@ func c18Kinds(cmd string) []string {
 			kinds = append(kinds, "headerless-sam", "window")
 		}
 		if cmd == "topa" {
-			kinds = append(kinds, "window", "two-record-reference", "bad-symbol", "header-without-id")
+			kinds = append(kinds, "window", "two-record-reference", "bad-symbol", "header-without-id", "record-without-sequence")
 		}
 		if cmd == "samvariants" {
-			kinds = append(kinds, "bad-suffix", "two-record-reference", "bad-symbol", "header-without-id")
+			kinds = append(kinds, "bad-suffix", "two-record-reference", "bad-symbol", "header-without-id", "record-without-sequence")
 		}
 	case "topranking":
 		kinds = append(kinds, "empty-csv", "bad-csv-header", "no-option", "csv-bad-amb", "csv-bad-snp", "csv-bad-count", "csv-short-row")
 	case "variants":
-		kinds = []string{"short-row", "long-row", "bad-symbol", "header-without-id", "missing-file", "empty-file", "bad-suffix", "width-mismatch"}
+		kinds = []string{"short-row", "long-row", "bad-symbol", "header-without-id", "record-without-sequence", "missing-file", "empty-file", "bad-suffix", "width-mismatch"}
 	case "closest", "closest-n":
-		kinds = []string{"short-row", "long-row", "bad-symbol", "header-without-id", "missing-file", "empty-file", "width-mismatch", "late-short-row", "late-bad-symbol", "late-short-row", "late-bad-symbol"}
+		kinds = []string{"short-row", "long-row", "bad-symbol", "header-without-id", "record-without-sequence", "missing-file", "empty-file", "width-mismatch", "late-short-row", "late-bad-symbol", "late-short-row", "late-bad-symbol"}
 	}
 	return kinds
 }
@@ -303,7 +311,7 @@ func execExitC18(c *Case, dir string) {
 	}
 	switch kind {
 	case "none":
-	case "short-row", "long-row", "bad-symbol", "header-without-id":
+	case "short-row", "long-row", "bad-symbol", "header-without-id", "record-without-sequence":
 		s.files[target] = corruptFasta(r, s.files[target], kind, c.Get("where"))
 		c.Set("text", strings.ToValidUTF8(s.files[target], "?")).Set("file", target) // the line protocol carries text: bytes that are not UTF-8 are shown as ?
 	case "late-short-row", "late-bad-symbol":
